@@ -456,6 +456,8 @@ func init() {
 	register("C12", genReaderReuse)
 	register("C12", genWriterReuse)
 	register("C12", genFrameHelpers)
+	register("C13", genFrameHelpers) // the helper entry point: RSV1 cleared, the other bits untouched
+	register("C12", genReaderAfterClose)
 	register("C18", genWriterReuse)
 	register("C18", genReaderReuse)
 }
@@ -602,6 +604,20 @@ func genFrameHelpers(tier string, r *rng) {
 					run(fmt.Sprintf("df %s %d %d %s", fin, rsv, op, hx(p)))
 				}
 			}
+		}
+	}
+}
+
+// genReaderAfterClose: one decompression reader for message after message where an EARLIER message was
+// malformed or cut and was ended with Close(): the next well-formed message is recovered all the same, with
+// decompressors that offer Reset(io.Reader) and with those that do not.
+func genReaderAfterClose(tier string, r *rng) {
+	comp := func(p []byte) []byte { return encFixed(p, true) }
+	for _, h := range [][]byte{[]byte("a"), bytes.Repeat([]byte("abc"), 100), r.bytes(200)} {
+		for _, fl := range []string{"C", "R", "RC"} {
+			run(fmt.Sprintf("rst fr %s 4 %s bb %s", hx([]byte{0xff, 0xff, 0xff}), hx(comp(h)), fl))
+			run(fmt.Sprintf("rst fr %s %d %s pb %s", hx(comp(h)[:len(comp(h))/2]), len(h), hx(comp(h)), fl))
+			run(fmt.Sprintf("rst fr %s %d %s bp %s", hx(comp(h)), len(h)/2, hx(comp(h)), fl))
 		}
 	}
 }
